@@ -1,7 +1,7 @@
 (* Extract.v -- extraction of the executable model and spec oracles to OCaml.
    ExtrOcamlBasic only; numbers stay the Coq datatypes. *)
 From Coq Require Import Extraction ExtrOcamlBasic.
-From Lhasa Require Import Base Generated Crc16 DecBase BitReader Null Lzs Lz5 Decoder S_Larc Lh1 Lzhuf PmaCommon Pm2 Pm1 LhNew InputStream Header BasicReader Fs FsRun S_LhNew.
+From Lhasa Require Import Base Generated Crc16 DecBase BitReader Null Lzs Lz5 Decoder S_Larc Lh1 Lzhuf PmaCommon Pm2 Pm1 LhNew InputStream Header BasicReader Fs FsRun Printf Glob ListOut S_LhNew.
 Extraction Language OCaml.
 Set Extraction Optimize.
 Extraction "../harness/ml/model.ml"
@@ -25,5 +25,8 @@ Extraction "../harness/ml/model.ml"
   lha_file_header_read mktime_utc collapse_path full_path
   lha_basic_reader_new lha_basic_reader_next_file lha_basic_reader_read_compressed
   run_ops fs_init dump run_case
+  safe_output match_glob matches_filter lha_filter_next_file parse_command_line parse_main
+  list_output list_output_cmd ratio_string compression_percent gmtime_utc
+  fmt_s fmt_c fmt_u fmt_x fmt_d fmt_f1
   lhn_lit lhn_copy lz77_expand lz77_expand_ref canonical_code complete_code tab_code
   v_lh4 v_lh5 v_lh6 v_lh7 v_lhx v_lk7 wf_block wf_stream block_bits serialise_stream serialise_bytes denote auto_stream.
